@@ -260,7 +260,7 @@ func chunkings(rng *rand.Rand, stream []byte, avoidANSI bool) [][]byte {
 func formatOutcomeCase(col *Collector, dir string, format string, outcome string) {
 	res := runTaskctl(dir, nil, 20*time.Second, "-c", filepath.Join(dir, "fmt.yaml"), "--output", format, outcome)
 	cs := Case{Tags: []string{"format-outcome", "format=" + format}, NonTrivial: true, Replay: fmt.Sprintf("taskctl --output %s %s", format, outcome)}
-	wantExit := map[string]int{"succeeds": 0, "fails": 1, "skipped": 0, "beforefails": 1, "allowed": 0}[outcome]
+	wantExit := map[string]int{"succeeds": 0, "fails": 1, "skipped": 0, "beforefails": 1, "allowed": 0, "coloured": 0}[outcome]
 	cs.Impl = fmt.Sprintf("exit=%d", res.exit)
 	switch {
 	case res.timedOut:
@@ -280,6 +280,7 @@ tasks:
   skipped: {command: ["echo never"], condition: "false"}
   beforefails: {command: ["echo never"], before: ["exit 2"]}
   allowed: {command: ["exit 4", "echo after"], allow_failure: true}
+  coloured: {command: ["/bin/echo -e 'plain \\033[32mgreen\\033[0m'", "/bin/echo -e '\\033[1;31mred'"]}
   inter: {command: ["echo one"], interactive: true}
   last: {command: ["echo three"]}
 pipelines:
@@ -404,7 +405,7 @@ func runC19(col *Collector, tier string, seed int64) {
 	os.WriteFile(filepath.Join(dir, "fmt.yaml"), []byte(fmtConfig), 0644)
 	var jobs [][2]string
 	for _, f := range []string{"raw", "prefixed", "cockpit"} {
-		for _, o := range []string{"succeeds", "fails", "skipped", "beforefails", "allowed"} {
+		for _, o := range []string{"succeeds", "fails", "skipped", "beforefails", "allowed", "coloured"} {
 			jobs = append(jobs, [2]string{f, o})
 		}
 	}
